@@ -54,6 +54,10 @@ type FileUpload struct {
 	// requires `Content-Disposition` parameters more than just
 	// "name" and "filename".
 	ExtraContentDisposition *ContentDisposition
+
+	// set by SetFileReader: the content can be read only once (the reader cannot be
+	// rewound, or is closed after the first upload), so the request must not be retried
+	unreplayable bool
 }
 
 // UploadInfo is the information for each UploadCallback call.
